@@ -401,7 +401,9 @@ func convTypeToTarget(source interface{}, target reflect.Type) (interface{}, err
 	default:
 		if source != nil {
 			rv := reflect.ValueOf(source)
-			if rv.IsValid() && rv.CanConvert(target) {
+			// reflect converts an integer to string as a code point (uint8(7) -> "\a"); leave that case to the formatting below
+			intToString := target.Kind() == reflect.String && rv.Kind() >= reflect.Int && rv.Kind() <= reflect.Uintptr
+			if rv.IsValid() && rv.CanConvert(target) && !intToString {
 				return rv.Convert(target).Interface(), nil
 			}
 		}
